@@ -1,6 +1,7 @@
 import TsVerif.C12.Props
 import TsVerif.C12.Round11
 import TsVerif.C12.Round11b
+import TsVerif.C12.Round11c
 #print axioms TsVerif.C12.editKids_get
 #print axioms TsVerif.C12.edit_same_or_marked
 #print axioms TsVerif.C12.unmarked_shared
@@ -27,3 +28,5 @@ import TsVerif.C12.Round11b
 #print axioms TsVerif.C12.tips_le_gt
 #print axioms TsVerif.C12.tips_bound
 #print axioms TsVerif.C12.edit_candidates_total_bound
+#print axioms TsVerif.C12.gloop_resume
+#print axioms TsVerif.C12.gloop_resume_twice
